@@ -2,8 +2,10 @@ package env
 
 import (
 	"context"
+	crand "crypto/rand"
 	"errors"
 	"fmt"
+	"io"
 	"net"
 	"time"
 
@@ -106,6 +108,15 @@ func (a *authImpl) NTLM(ctx context.Context, m *auth.NtlmRequest) (*auth.NtlmRes
 	return r, err
 }
 
+type shortReader struct{ r io.Reader }
+
+func (s shortReader) Read(p []byte) (int, error) {
+	if len(p) > 1 {
+		p = p[:1]
+	}
+	return s.r.Read(p)
+}
+
 // StartAuthNode starts the helper on a (simulated) unix socket path.
 func (w *World) StartAuthNode(sock string, users []authconfig.UserConfig, pam map[string]string) *AuthNode {
 	n := &AuthNode{W: w, Sock: sock, Users: users, PAM: pam}
@@ -118,7 +129,22 @@ func (n *AuthNode) start() {
 	l := n.W.S.Listen(n.Sock)
 	l.Auto = true
 	n.srv = grpc.NewServer()
-	n.impl = &authImpl{n: n, ntlm: ntlm.NewNTLMAuth(&slowDB{n: n, db: database.NewConfig(n.Users)})}
+	switch n.W.AuthEntropy {
+	case "fail-at-start":
+		// fault: the secure random source is unavailable while the helper starts
+		old := crand.Reader
+		crand.Reader = failingReader{}
+		n.impl = &authImpl{n: n, ntlm: ntlm.NewNTLMAuth(&slowDB{n: n, db: database.NewConfig(n.Users)})}
+		crand.Reader = old
+		n.W.S.Count("fault.entropy.unavailable_at_helper_start")
+	case "short-reads":
+		// fault-ish: the random source hands out one byte per Read call (legal for an io.Reader)
+		crand.Reader = shortReader{origRand}
+		n.impl = &authImpl{n: n, ntlm: ntlm.NewNTLMAuth(&slowDB{n: n, db: database.NewConfig(n.Users)})}
+		n.W.S.Count("fault.entropy.short_reads")
+	default:
+		n.impl = &authImpl{n: n, ntlm: ntlm.NewNTLMAuth(&slowDB{n: n, db: database.NewConfig(n.Users)})}
+	}
 	auth.RegisterAuthenticateServer(n.srv, n.impl)
 	srv := n.srv
 	go srv.Serve(l)
